@@ -70,7 +70,7 @@ PROPS = {
         profiles=[("timeline", ALL_VARIANTS), ("life", ALL_VARIANTS), ("deploy", ALL_VARIANTS),
                   ("chunks", ["nft"] + GUAR)],
         R={"st": [(ANY, STAGE_MSGS), ({"deploy"}, None)]},
-        D={"cfg": ANY, "views.C06": ANY},
+        D={"cfg": ANY, "flags": ANY, "views.C06": ANY},
     ),
     "C07": dict(
         title="Confirmation: exact payment, within allocation",
